@@ -339,7 +339,12 @@ def agreement(unit, work, tier, seed, repo, goenv):
            "extra": {"runs": {}}, "notes": []}
     t_start = time.time()
     budget = float(os.environ.get("VERIF_BUDGET_OVERRIDE") or (0 if tier == "quick" else 3000))
+    only_levels = os.environ.get("VERIF_C02_PASSES")  # development aid: run only the named passes
     for level, conftext in passes:
+        if only_levels and level not in only_levels.split(","):
+            rep["exhaustive"] = False
+            rep["notes"].append("pass %r skipped by VERIF_C02_PASSES" % level)
+            continue
         if budget and time.time() - t_start > budget:
             rep["exhaustive"] = False
             rep["notes"].append("budget of %d s reached before pass %r: not run" % (budget, level))
@@ -424,6 +429,11 @@ def run_one(rep, bindir, repo, conf, level, mode, impl, extra):
         m = re.search(r"^FAILED: " + re.escape(fn) + r".*?(?=^FAILED: |^INFO: |^Total cases|\Z)", out, flags=re.M | re.S)
         txt = (m.group(0) if m else fn)
         txt = txt.split("---- HTTP Trace ----")[0]
+        if "too many open files" in txt or "cannot allocate memory" in txt:
+            # the machine ran out of descriptors / memory under the run: an environment fault, not a verdict
+            rep["exhaustive"] = False
+            rep["notes"].append("%s: %d permutation(s) of shape %s failed for lack of resources (%s): not reported" % (tag, len(names), shape, "too many open files" if "too many open files" in txt else "out of memory"))
+            continue
         rep["violations"].append({"key": "disagreement:%s:%s" % (mode, shape),
                                   "detail": "%d permutation(s) of shape %s fail in %s mode, e.g. %s" % (len(names), shape, mode, txt[:2500]),
                                   "replay": dict(rp, test=fn, shape=shape)})
